@@ -23,19 +23,23 @@ RULE = ("exhaustive: every non-empty set of distinct strict orders over m <= 3 a
         "single-peaked votes (Conitzer / Walsh style from a hidden axis) and random votes, arbitrary ids, multiplicities; "
         "planted profiles m <= 40, n <= 30 (axis through the verified checker only); large negatives = planted profile + "
         "noise with an embedded 3-4 alternative core refuted by the reference (sp_restrict). "
+        "On EVERY case the verdict is also compared with the mirror of the algorithm (op c03.elo, Model/ELO.v). "
         "non-trivial = >= 3 alternatives and >= 2 distinct orders")
 EXHAUSTIVE = {"quick": "all sets of distinct strict orders m<=3; all sets of <=3 orders m=4; both storage orders; all 2-voter "
                        "profiles m=4 under non-contiguous ids; all 2-voter profiles m=5 + common bottom",
               "thorough": "all sets of distinct strict orders m<=3; all sets of <=4 orders m=4; both storage orders"}
-TRUSTED = ["(R) not verified, compared with the verified reference sp_decide on bounded inputs and through the verified "
-           "axis checker at every size: is_single_peaked (Escoffier-Lang-Ozturk elimination); flatten_strict is "
-           "exercised through it"]
+TRUSTED = ["is_single_peaked (Escoffier-Lang-Ozturk) is MIRRORED statement by statement (Model/ELO.v) and the mirror is "
+           "proved terminating, error-free, sound and complete for every well-formed strict profile (elo_terminates, "
+           "elo_no_error, elo_sound, elo_complete, elo_correct); what is trusted is the correspondence itself: that the "
+           "Python function behaves like the mirror - checked on every case of every run (verdict equal at every size; "
+           "the returned axis is additionally sent through the verified checker and compared with the mirror's axis as a "
+           "statistic); flatten_strict is exercised through it"]
 ASSUMPTIONS = ["data_type = soc, every order ranks every alternative exactly once, >= 1 order, orders distinct "
                "(quantifier of C03)"]
 COVER_FILES = ['properties/subdomains/ordinal/singlepeaked/singlepeakedness.py']
 TIMEOUT_S = 30.0
 CHUNK = 40
-THEOREMS_FOR_OP = {"c03.sp": "sp_decide_correct / sp_check_axis_correct / sp_restrict"}
+THEOREMS_FOR_OP = {"c03.sp": "sp_decide_correct / sp_check_axis_correct / sp_restrict / elo_sound / elo_complete"}
 
 
 # ------------------------------------------------------------------------------------------------ generators
@@ -329,6 +333,7 @@ def oracle_requests(c, r):
         reqs.append(("c03.decide", [a2, r2]))
     if isinstance(r, list) and r[0] == 0 and r[1] == 1:
         reqs.append(("c03.check_axis", [alts, rankings, r[2]]))
+    reqs.append(("c03.elo", [alts, rankings]))          # the mirror of the algorithm, always last
     return reqs
 
 
@@ -361,10 +366,20 @@ def judge(c, r, mres):
         return {"kind": "mismatch", "theorem": "sp_decide_correct" if mode == 1 else "sp_restrict",
                 "reason": "is_single_peaked -> %r, expected %r: %s" % (bool(r[1]), bool(exp), why)}
     if r[1] == 1:
-        if len(mres) <= i or mres[i] != 1:
+        if len(mres) <= i + 1 or mres[i] != 1:
             return {"kind": "mismatch", "theorem": "sp_check_axis_correct",
                     "reason": "returned axis %r is not a permutation of the alternatives w.r.t. which every voter is "
                               "single-peaked" % (r[2],)}
+    # the mirrored algorithm (Model/ELO.v) is deterministic in the storage order: the verdict must agree exactly,
+    # at every size; the axis is only counted (stats)
+    me = mres[-1]
+    if me[0] != 0:
+        return {"kind": "mismatch", "theorem": "elo_no_error / elo_terminates",
+                "reason": "the mirror of is_single_peaked ends with error code %r on a well-formed profile while the "
+                          "implementation returned %r" % (me[1], r[1:])}
+    if me[1][0] != r[1]:
+        return {"kind": "mismatch", "theorem": "elo mirror (Model/ELO.v): elo_sound / elo_complete",
+                "reason": "is_single_peaked -> %r, its statement-by-statement mirror -> %r" % (bool(r[1]), bool(me[1][0]))}
     return None
 
 
@@ -389,6 +404,11 @@ def stats(c, r, m):
             lab.append("large planted %s" % size)
     if isinstance(r, list) and r[0] == 0 and r[1] == 1:
         lab.append("axis checked %s" % size)
+    me = m[-1]
+    if isinstance(r, list) and r[0] == 0 and me[0] == 0:
+        lab.append("mirror verdict compared %s" % ("(large)" if mode == 0 else "(small)"))
+        if r[1] == 1 and me[1][0] == 1:
+            lab.append("mirror axis identical" if me[1][1] == r[2] else "mirror axis DIFFERS (not an alarm)")
     verdict = "SP" if exp == 1 else ("notSP" if exp == 0 else "unknown")
     d = common_bottom_depth(rankings)
     if d >= 1 and len(rankings) >= 2 and mm >= 3:
